@@ -62,22 +62,22 @@ ADDED2 = {
     'C01': 'the untyped read_nth_shape / iter_shapes / read / read_shapes routes; single-ring constructors; more than 4096 parts; special measures on long parts',
     'C02': 'the complete Writer by path (over longer files too); the bulk call as the only call and handed nothing; part starts beyond vertex 2^16',
     'C03': 'NaN in X / Y; record numbers i32::MAX / MIN; more than 1024 parts; a file without records followed by a stale record; the complete reader on every file',
-    'C04': 'iteration after a random access at the last index; two finalizes in a row; 65537 records; read_nth_shape(usize::MAX)',
+    'C04': 'iteration after a random access at the last index; two finalizes in a row; 65537 records; read_nth_shape(usize::MAX); round 9: random access after k good steps and one typed step asking for another type',
     'C05': 'shapes of 17..40 parts; a finalize before the first write; the boxes of the geo-types constructors',
     'C06': 'identity of the conversions on shapes decoded from foreign files; shapefile::read_as(path) and Reader::from_path typed routes',
-    'C07': 'far-away indices for Reader::seek, read_nth_shape and nth on a used iterator; small negative content lengths with every type code',
-    'C08': 'seek(2) / seek(5); per-pair calls followed by the bulk call; the empty history by path; pairs accepted before a refused row must survive',
-    'C09': 'a refused write before a finalize; write_shapes of nothing; no I/O at an unwinding drop; 255 / 256 / 257 / 512 writes between finalizes; a writer of user-defined NullShape shapes',
+    'C07': 'far-away indices for Reader::seek, read_nth_shape and nth on a used iterator; small negative content lengths with every type code; round 9: an unoptimised build (profile noopt) over a sample of the case space and every case of class (i), 3000 / 40 000 / 200 000 index entries that cannot address a record',
+    'C08': 'seek(2) / seek(5); per-pair calls followed by the bulk call; the empty history by path; pairs accepted before a refused row must survive; round 9: seek on the index-less complete reader (refused), then read()',
+    'C09': 'a refused write before a finalize; write_shapes of nothing; no I/O at an unwinding drop; 255 / 256 / 257 / 512 writes between finalizes; a writer of user-defined NullShape shapes; round 9: no write left behind the last flush once the writer is dropped',
     'C10': 'refusals on a file beyond 64 KiB; a refused shape with special values; the path-created writer; a pre-typed ShapeWriter handed to Writer::new',
-    'C11': 'byte-level cuts for every type in the quick tier; large-part workloads for PolylineM, PolygonZ, MultipointZ; a sixth workload kind: all shapes through one consuming write_shapes call',
+    'C11': 'byte-level cuts for every type in the quick tier; large-part workloads for PolylineM, PolygonZ, MultipointZ; a sixth workload kind: all shapes through one consuming write_shapes call; round 9: a sample of the crash images written to a file and opened by path',
     'C12': 'the complete writer\'s bulk route; the empty history and bulk calls handed nothing; a part of 40 vertices; interrupted seeks (persistent and one-shot)',
     'C13': 'the complete reader under fault enumeration; typed and by-path one-liners on cut files; a seek behind the end; ten error kinds; a cut index that opens must report the cut',
     'C14': 'gaps of 2..4 KiB; null-shape records behind the index; 8193 entries in the quick tier',
-    'C15': 'every seek position on a 40-record file',
+    'C15': 'every seek position on a 40-record file; round 9: all ordered pairs of random accesses on one reader over 40 records of mixed sizes',
     'C16': 'rings up to 700 vertices; the geo-types constructors',
-    'C18': 'the bulk route for the two-record file; 511..4097 parts',
-    'C19': 'bodies of 44 / 100 bytes; indexed iteration and read(); the complete reader; the code in a second record; the index header by path',
-    'C20': 'typed conversions compared with the generic one; strips / fans of 3..6 vertices (typed refusal too); a vertex-less hole',
+    'C18': 'the bulk route for the two-record file; 511..4097 parts; round 9: serialisation into destinations accepting 1, 7, 8, 13, 4096 bytes per write call',
+    'C19': 'bodies of 44 / 100 bytes; indexed iteration and read(); the complete reader; the code in a second record; the index header by path; round 9: headers and records through sources handing out 1..3 bytes per read call',
+    'C20': 'typed conversions compared with the generic one; strips / fans of 3..6 vertices (typed refusal too); a vertex-less hole; round 9: geo rings of 1..3 coordinates',
 }
 
 
